@@ -16,6 +16,7 @@ ADVERSARIAL = {
     'back-to-back-labels': "#pragma version 8\nint 1\nbnz a\nb b\na:\nb:\nint 1\nreturn\n",
     'branch-last': "#pragma version 8\ntop:\ntxn NumAppArgs\nint 1\nbnz top\n",
     'call-last': "#pragma version 8\nb main\nf:\nretsub\nmain:\nint 1\ncallsub f\n",
+    'call-last-in-sub': "#pragma version 8\ncallsub f\nint 1\nreturn\ng:\nint 2\npop\nretsub\nf:\nint 1\nbz y\ncallsub g\nint 1\nreturn\ny:\nint 1\ncallsub g\n",
     'loop': "#pragma version 8\nint 0\nstore 0\ntop:\nload 0\nint 3\n<\nbz done\nload 0\nint 1\n+\nstore 0\nb top\ndone:\nint 1\nreturn\n",
     'recursion': "#pragma version 8\nint 3\ncallsub f\nint 1\nreturn\nf:\ndup\nbz base\nint 1\n-\ncallsub f\nbase:\nretsub\n",
     'branch-to-next': "#pragma version 8\ntxn Fee\nint 5\n<\nbz nxt\nnxt:\nint 1\nreturn\n",
@@ -104,7 +105,12 @@ def internal(src):
     subs = {s.name: sorted(b.idx for b in s.blocks) for s in teal.subroutines.values()}
     callers = {s.name: sorted(set(b.subroutine.name for b in s.caller_blocks)) for s in teal.subroutines.values()}
     ctx = {b.idx: (sorted(fn.transaction_context(b).group_indices), sorted(fn.transaction_context(b).group_sizes)) for b in fn.blocks}
-    r = {'blocks': blocks, 'edges': edges, 'paths': paths, 'fblocks': fblocks, 'subs': subs, 'callers': callers, 'ctx': ctx}
+    # call sites per subroutine: (callsub block, callee name, return point or None)
+    callsites = {s.name: sorted((b.idx, b.called_subroutine.name, b.sub_return_point.idx if b.sub_return_point is not None else None)
+                                for b in s.blocks if b.is_callsub_block) for s in teal.subroutines.values()}
+    # edges inside a subroutine: successor edges of its blocks, except that a call site leads to its call box
+    subedges = {s.name: sorted((b.idx, n.idx) for b in s.blocks if not b.is_callsub_block for n in b.next) for s in teal.subroutines.values()}
+    r = {'blocks': blocks, 'edges': edges, 'paths': paths, 'fblocks': fblocks, 'subs': subs, 'callers': callers, 'ctx': ctx, 'callsites': callsites, 'subedges': subedges}
     _INTERNAL[src] = r
     return r
 
@@ -198,6 +204,20 @@ def check_outputs(mode, src, wd, stdout):
             nodes, edges = parse_dot(open(os.path.join(d, cand[0])).read())
             if sorted(nodes) != blocks:
                 bad.append(('sub-nodes', mode, f"{cand[0]} has nodes {sorted(nodes)}, subroutine {sname} has blocks {blocks}"))
+            txt = open(os.path.join(d, cand[0])).read()
+            # one call box per call site: `x<B>_<R>[label="Subroutine <callee>" ...] <B>:s -> x<B>_<R>:n;` and, when the call
+            # has a return point, `x<B>_<R>:s -> <R>:<line>:n;`
+            boxes = sorted((int(b_), lab, (int(r_) if r_ != 'none' else None)) for b_, r_, lab in re.findall(r'x(\d+)_(\w+)\[label="Subroutine ([^"]*)"', txt))
+            into = sorted((int(a), int(b_)) for a, b_, r_ in re.findall(r'(\d+):s -> x(\d+)_(\w+):n', txt))
+            outof = sorted((int(b_), int(r2)) for b_, r_, r2 in re.findall(r'x(\d+)_(\w+):s -> (\d+):\d+:n', txt))
+            want = I['callsites'].get(sname, [])
+            if boxes != want:
+                bad.append(('call-boxes', mode, f"{cand[0]} has call boxes {boxes} (call site, callee, return point); subroutine {sname} has the call sites {want}"))
+            elif into != sorted((b_, b_) for b_, _, _ in want) or outof != sorted((b_, r_) for b_, _, r_ in want if r_ is not None):
+                bad.append(('call-box-edges', mode, f"{cand[0]}: edges into the call boxes {into}, out of them {outof}; call sites {want}"))
+            own_edges = sorted(set((int(a), int(b_)) for a, b_ in re.findall(r'(?<![\w])(\d+):s -> (\d+):\d+:n', txt)))
+            if own_edges != sorted(set(I['subedges'].get(sname, []))):
+                bad.append(('sub-edges', mode, f"{cand[0]} has edges {own_edges}, subroutine {sname} has {I['subedges'].get(sname, [])}"))
     if mode == 'print-call-graph':
         p = os.path.join(outdir, 'call-graph.dot')
         want = set()
